@@ -42,7 +42,7 @@ pub fn judge(h: &History, recs: &[StepRec]) -> Result<(bool, bool), Failure> {
         if r.deliveries.iter().any(|d| matches!(d.verdict, Verdict::SizeDontCare)) {
             return Ok((any_accept, any_fresh_reject)); // not judged beyond this point
         }
-        if matches!(r.step, Step::Join(_) | Step::JoinAbp) {
+        if matches!(r.step, Step::Join(_) | Step::JoinAbp | Step::SetSession { .. }) {
             last_n = None;
             continue;
         }
